@@ -35,42 +35,10 @@ Qed.
 
 Section Once.
 Variable env : Z -> list action.
+Variable uenv : Z -> list action.
 
 Lemma Below_in : forall s w, Below s -> In w (all_lists s) -> w_id w < next_id s.
 Proof. intros s w H Hin. unfold Below in H. rewrite Forall_forall in H. auto. Qed.
-
-Lemma Once_notify : forall s w, WF (notify_unbind s w) -> log_below s -> w_id w < next_id s ->
-  (forall id, (fires id (log s) + cnt_all s id <= 1)%nat) -> Once (notify_unbind s w).
-Proof.
-  intros s w Hwf Hl Hw Hs. constructor; [exact Hwf| |].
-  - unfold notify_unbind, log_below in *. destruct (w_unbind w); [|exact Hl].
-    intros e [He|He]; [inversion He; subst; exact Hw|exact (Hl e He)].
-  - intros id. rewrite cnt_all_notify. unfold notify_unbind. destruct (w_unbind w); [|apply Hs].
-    cbn [log emit set_log]. rewrite fires_cons_nofire by reflexivity. apply Hs.
-Qed.
-
-Lemma Once_cancel : forall s id, Once s -> Once (watch_cancel s id).
-Proof.
-  intros s id [Hwf Hl Hs].
-  pose proof (WF_cancel s id Hwf) as Hwf'.
-  pose proof (wf_below _ Hwf) as Hb.
-  unfold watch_cancel in *.
-  repeat match goal with
-  | |- context [match find_remove ?a ?l with _ => _ end] =>
-      let E := fresh "E" in destruct (find_remove a l) as [[w0 l0]|] eqn:E;
-      [apply Once_notify;
-       [exact Hwf'
-       |exact Hl
-       |destruct (find_remove_some _ _ _ _ E) as [_ [Hin _]]; apply (Below_in s w0 Hb); unfold all_lists;
-        repeat (apply in_or_app; first [left; exact Hin | right]); exact Hin
-       |intros i; specialize (Hs i); unfold cnt_all in *;
-        cbn [log timers run_timers laters run_laters ios sigs procs
-             set_ios set_timers set_run_timers set_laters set_run_laters set_sigs set_procs];
-        pose proof (find_remove_cnt _ _ _ _ E i); lia]
-      |]
-  end.
-  constructor; assumption.
-Qed.
 
 Lemma fires_fresh : forall s id, log_below s -> next_id s <= id -> fires id (log s) = O.
 Proof.
@@ -84,10 +52,10 @@ Proof.
   rewrite G; [reflexivity|exact Hl].
 Qed.
 
-Lemma Once_action : forall s a, Once s -> Once (do_action false s a).
+Lemma Once_reg : forall s a, Once s -> Once (do_reg false s a).
 Proof.
-  intros s a H. pose proof (WF_action s a (once_wf _ H)) as Hwf'.
-  destruct a as [d fl cb|fl cb|k x fl cb|id|]; cbn [do_action] in *; try exact H.
+  intros s a H. pose proof (WF_reg s a (once_wf _ H)) as Hwf'.
+  destruct a as [d fl cb|fl cb|k x fl cb|id|]; cbn [do_reg] in *; try exact H.
   - destruct H as [Hwf Hl Hs]. constructor; [exact Hwf'| |].
     + intros e He. cbn [log set_next set_timers next_id] in *. specialize (Hl e He). lia.
     + intros i. specialize (Hs i). unfold cnt_all in *.
@@ -115,16 +83,65 @@ Proof.
       pose proof (wf_uniq _ Hwf' (next_id s)) as U; unfold cnt_all in U;
       cbn [timers run_timers laters run_laters ios sigs procs set_next set_ios set_sigs set_procs] in U;
       rewrite cnt_insert_watch in U; unfold hit in U; cbn [w_id] in U; rewrite Z.eqb_refl in U; lia.
-  - apply Once_cancel. exact H.
 Qed.
 
-Lemma Once_actions : forall l s, Once s -> Once (do_actions false s l).
+Lemma Once_regs : forall l s, Once s -> Once (do_regs false s l).
+Proof.
+  induction l as [|a l IH]; intros s H; [exact H|].
+  unfold do_regs in *. cbn [fold_left]. apply IH. apply Once_reg. exact H.
+Qed.
+
+Lemma Once_notify : forall s w, Once s -> w_id w < next_id s -> Once (notify_unbind false uenv s w).
+Proof.
+  intros s w [Hwf Hl Hs] Hw. unfold notify_unbind. destruct (w_unbind w); [|constructor; assumption].
+  apply Once_regs. constructor; [apply WF_emit; exact Hwf| |].
+  - intros e [He|He]; [inversion He; subst; exact Hw|exact (Hl e He)].
+  - intros id. cbn [log emit set_log]. rewrite fires_cons_nofire by reflexivity. apply Hs.
+Qed.
+
+Ltac once_removed WFL E :=
+  match goal with Hwf : WF ?s, Hl : log_below ?s, Hs : forall id, (fires id (log ?s) + cnt_all ?s id <= 1)%nat |- _ =>
+    apply Once_notify;
+    [ constructor;
+      [ eapply WFL; eassumption
+      | exact Hl
+      | let i := fresh "i" in intros i; specialize (Hs i); unfold cnt_all in *;
+        cbn [log timers run_timers laters run_laters ios sigs procs
+             set_ios set_timers set_run_timers set_laters set_run_laters set_sigs set_procs];
+        pose proof (find_remove_cnt _ _ _ _ E i); lia ]
+    | let Hin := fresh "Hin" in
+      destruct (find_remove_some _ _ _ _ E) as [_ [Hin _]];
+      apply (Below_in s _ (wf_below _ Hwf)); unfold all_lists;
+      repeat (apply in_or_app; first [left; exact Hin | right]); exact Hin ]
+  end.
+
+Lemma Once_cancel : forall s id, Once s -> Once (watch_cancel false uenv s id).
+Proof.
+  intros s id [Hwf Hl Hs]. unfold watch_cancel.
+  destruct (find_remove id (ios s)) as [[w0 l0]|] eqn:E1; [once_removed WF_rm_ios E1|].
+  destruct (find_remove id (timers s)) as [[w0 l0]|] eqn:E2; [once_removed WF_rm_timers E2|].
+  destruct (find_remove id (run_timers s)) as [[w0 l0]|] eqn:E3; [once_removed WF_rm_run_timers E3|].
+  destruct (find_remove id (laters s)) as [[w0 l0]|] eqn:E4; [once_removed WF_rm_laters E4|].
+  destruct (find_remove id (run_laters s)) as [[w0 l0]|] eqn:E5; [once_removed WF_rm_run_laters E5|].
+  destruct (find_remove id (sigs s)) as [[w0 l0]|] eqn:E6; [once_removed WF_rm_sigs E6|].
+  destruct (find_remove id (procs s)) as [[w0 l0]|] eqn:E7; [once_removed WF_rm_procs E7|].
+  constructor; assumption.
+Qed.
+
+Lemma Once_action : forall s a, Once s -> Once (do_action false uenv s a).
+Proof.
+  intros s a H. destruct a as [d fl cb|fl cb|k x fl cb|id|]; cbn [do_action];
+    try (apply Once_reg; exact H).
+  apply Once_cancel. exact H.
+Qed.
+
+Lemma Once_actions : forall l s, Once s -> Once (do_actions false uenv s l).
 Proof.
   induction l as [|a l IH]; intros s H; [exact H|].
   unfold do_actions in *. cbn [fold_left]. apply IH. apply Once_action. exact H.
 Qed.
 
-Lemma Once_pop_timer : forall s w r, Once s -> run_timers s = w :: r -> Once (pop_timer env s w r).
+Lemma Once_pop_timer : forall s w r, Once s -> run_timers s = w :: r -> Once (pop_timer env uenv s w r).
 Proof.
   intros s w r [Hwf Hl Hs] Er. unfold pop_timer. apply Once_actions.
   pose proof (WF_pop_timer_pre s w r Hwf Er) as Hwf'.
@@ -137,7 +154,7 @@ Proof.
     rewrite fires_cons_fire. lia.
 Qed.
 
-Lemma Once_pop_later : forall s w r, Once s -> run_laters s = w :: r -> Once (pop_later env s w r).
+Lemma Once_pop_later : forall s w r, Once s -> run_laters s = w :: r -> Once (pop_later env uenv s w r).
 Proof.
   intros s w r [Hwf Hl Hs] Er. unfold pop_later. apply Once_actions.
   pose proof (WF_pop_later_pre s w r Hwf Er) as Hwf'.
@@ -150,7 +167,7 @@ Proof.
     rewrite fires_cons_fire. lia.
 Qed.
 
-Lemma Once_finish : forall k s, Once s -> (length (run_timers s) + length (run_laters s) <= k)%nat -> Once (finish env s).
+Lemma Once_finish : forall k s, Once s -> (length (run_timers s) + length (run_laters s) <= k)%nat -> Once (finish env uenv s).
 Proof.
   induction k as [|k IH]; intros s H Hk.
   - assert (Et : run_timers s = []) by (destruct (run_timers s); [reflexivity|cbn in Hk; lia]).
@@ -159,17 +176,17 @@ Proof.
   - destruct (run_timers s) as [|w r] eqn:Et.
     + destruct (run_laters s) as [|w r] eqn:Er.
       * rewrite finish_done by assumption. exact H.
-      * rewrite (finish_step_later env s w r Et Er). apply IH; [apply Once_pop_later; assumption|].
-        destruct (actions_run_len false (env (w_cb w)) (emit (set_run_laters s r) w (EV_FIRE + EV_UNBIND))) as [L1 L2].
-        cbn [run_timers run_laters emit set_log set_run_laters] in L1, L2. fold (pop_later env s w r) in L1, L2.
+      * rewrite (finish_step_later env uenv s w r Et Er). apply IH; [apply Once_pop_later; assumption|].
+        destruct (actions_run_len false uenv (env (w_cb w)) (emit (set_run_laters s r) w (EV_FIRE + EV_UNBIND))) as [L1 L2].
+        cbn [run_timers run_laters emit set_log set_run_laters] in L1, L2. fold (pop_later env uenv s w r) in L1, L2.
         rewrite Et in L1. cbn [length] in Hk, L1. lia.
-    + rewrite (finish_step_timer env s w r Et). apply IH; [apply Once_pop_timer; assumption|].
-      destruct (actions_run_len false (env (w_cb w)) (emit (set_run_timers s r) w (EV_FIRE + EV_UNBIND))) as [L1 L2].
-      cbn [run_timers run_laters emit set_log set_run_timers] in L1, L2. fold (pop_timer env s w r) in L1, L2.
+    + rewrite (finish_step_timer env uenv s w r Et). apply IH; [apply Once_pop_timer; assumption|].
+      destruct (actions_run_len false uenv (env (w_cb w)) (emit (set_run_timers s r) w (EV_FIRE + EV_UNBIND))) as [L1 L2].
+      cbn [run_timers run_laters emit set_log set_run_timers] in L1, L2. fold (pop_timer env uenv s w r) in L1, L2.
       cbn [length] in Hk. lia.
 Qed.
 
-Lemma Once_tick : forall sleep dt s, Once s -> run_timers s = [] -> run_laters s = [] -> Once (tick false env sleep dt s).
+Lemma Once_tick : forall sleep dt s, Once s -> run_timers s = [] -> run_laters s = [] -> Once (tick false env uenv sleep dt s).
 Proof.
   intros sleep dt s H Et Er. unfold tick.
   set (s1 := set_iter (set_now s (now s + dt)) (iter s + 1)).
@@ -183,7 +200,7 @@ Proof.
       try (intros e [He|He]; [discriminate|exact (Hl e He)]);
       intros i; specialize (Hsum i); cbn [log s2 s1 set_log set_iter set_now]; rewrite fires_cons_poll; exact Hsum. }
   destruct H3 as [H3 [Et3 Er3]].
-  rewrite (invoke_timers_finish env s3 Et3 Er3 (wf_sorted _ (once_wf _ H3))).
+  rewrite (invoke_timers_finish env uenv s3 Et3 Er3 (wf_sorted _ (once_wf _ H3))).
   apply (Once_finish (length (run_timers (detached s3)) + length (run_laters (detached s3)))); [|apply le_n].
   destruct H3 as [Hwf Hl Hsum]. constructor; [apply WF_detached; assumption|exact Hl|].
   intros i. specialize (Hsum i). unfold cnt_all, detached in *.
@@ -194,10 +211,10 @@ Qed.
 Lemma Once_st0 : Once st0.
 Proof. constructor; [apply WF_st0|intros e []|intros id; cbn; lia]. Qed.
 
-Lemma Once_run_ops : forall ops, Once (run_ops false env ops).
+Lemma Once_run_ops : forall ops, Once (run_ops false env uenv ops).
 Proof.
   intros ops. unfold run_ops.
-  assert (G : forall ops s, Once s -> Quiet s -> Once (fold_left (do_op false env) ops s)).
+  assert (G : forall ops s, Once s -> Quiet s -> Once (fold_left (do_op false env uenv) ops s)).
   { induction ops0 as [|o r IH]; intros s H Q; [exact H|].
     cbn [fold_left]. destruct Q as [QI [Et Er]]. apply IH.
     - destruct o as [a|dt|]; cbn [do_op]; [apply Once_action; exact H|apply Once_tick; assumption|apply Once_tick; assumption].
@@ -217,13 +234,13 @@ Proof.
 Qed.
 
 (* C17 "exactly once": in a whole history no watch is invoked (FIRE) more than once *)
-Theorem at_most_once : forall ops id, (fires id (run false env ops) <= 1)%nat.
+Theorem at_most_once : forall ops id, (fires id (run false env uenv ops) <= 1)%nat.
 Proof.
   intros ops id. unfold run.
   assert (FR : forall (l : list obs), filter (is_fire id) (rev l) = rev (filter (is_fire id) l)).
   { induction l as [|o l IH]; [reflexivity|]. cbn [rev filter]. rewrite filter_app, IH. cbn [filter].
     destruct (is_fire id o); cbn [rev]; [reflexivity|apply app_nil_r]. }
-  assert (E : fires id (rev (log (destroy (run_ops false env ops)))) = fires id (log (destroy (run_ops false env ops)))).
+  assert (E : fires id (rev (log (destroy (run_ops false env uenv ops)))) = fires id (log (destroy (run_ops false env uenv ops)))).
   { unfold fires. rewrite FR, rev_length. reflexivity. }
   rewrite E, fires_destroy.
   pose proof (once_sum _ (Once_run_ops ops) id). lia.
@@ -308,47 +325,87 @@ Definition wkey (w : watch) : Z * Z := (w_x w, w_id w).
 
 Section Order.
 Variable env : Z -> list action.
+Variable uenv : Z -> list action.
 
-Lemma cancel_subseq : forall s id,
-  subseq (run_timers (watch_cancel s id)) (run_timers s) /\ subseq (timers (watch_cancel s id)) (timers s).
+Lemma cancel_subseq : forall s id, subseq (run_timers (watch_cancel false uenv s id)) (run_timers s).
 Proof.
   intros s id. unfold watch_cancel.
   repeat match goal with
   | |- context [match find_remove ?a ?l with _ => _ end] =>
       let E := fresh "E" in destruct (find_remove a l) as [[w0 l0]|] eqn:E;
-      [unfold notify_unbind; destruct (w_unbind w0);
-       cbn [run_timers timers emit set_log set_ios set_timers set_run_timers set_laters set_run_laters set_sigs set_procs];
-       (split; first [apply subseq_refl | eapply find_remove_subseq; eassumption])|]
+      [match goal with |- context [notify_unbind false uenv ?s0 w0] =>
+         destruct (notify_fields false uenv s0 w0) as [F1 _]; rewrite F1 end;
+       cbn [run_timers set_ios set_timers set_run_timers set_laters set_run_laters set_sigs set_procs];
+       first [apply subseq_refl | eapply find_remove_subseq; eassumption]|]
   end.
-  split; apply subseq_refl.
+  apply subseq_refl.
 Qed.
 
-Lemma action_run_subseq : forall s a, subseq (run_timers (do_action false s a)) (run_timers s).
+Lemma action_run_subseq : forall s a, subseq (run_timers (do_action false uenv s a)) (run_timers s).
 Proof.
   intros s a. destruct a as [d fl cb|fl cb|k x fl cb|id|]; cbn [do_action]; try apply subseq_refl.
-  - destruct k; apply subseq_refl.
+  - destruct (reg_fields false s (AWatch k x fl cb)) as [A1 _]. rewrite A1. apply subseq_refl.
   - apply cancel_subseq.
 Qed.
 
-Lemma actions_run_subseq : forall l s, subseq (run_timers (do_actions false s l)) (run_timers s).
+Lemma actions_run_subseq : forall l s, subseq (run_timers (do_actions false uenv s l)) (run_timers s).
 Proof.
   induction l as [|a l IH]; intros s; [apply subseq_refl|].
   unfold do_actions in *. cbn [fold_left]. eapply subseq_trans; [apply IH|apply action_run_subseq].
 Qed.
 
-Lemma KS_action : forall s a, Below s -> ksorted (timers s) -> ksorted (timers (do_action false s a)).
+Lemma KS_reg : forall s a, Below s -> ksorted (timers s) -> ksorted (timers (do_reg false s a)).
 Proof.
-  intros s a Hb Hs. destruct a as [d fl cb|fl cb|k x fl cb|id|]; cbn [do_action]; try exact Hs.
+  intros s a Hb Hs. destruct a as [d fl cb|fl cb|k x fl cb|id|]; cbn [do_reg]; try exact Hs.
   - cbn [timers set_next set_timers]. apply ksorted_timer_insert; [exact Hs|].
     destruct (Below_parts s Hb) as [B1 _]. exact B1.
   - destruct k; exact Hs.
-  - eapply ksorted_subseq; [apply cancel_subseq|exact Hs].
 Qed.
 
-Lemma KS_actions : forall l s, Below s -> ksorted (timers s) -> ksorted (timers (do_actions false s l)).
+Lemma KS_regs : forall l s, Below s -> ksorted (timers s) -> ksorted (timers (do_regs false s l)).
 Proof.
   induction l as [|a l IH]; intros s Hb Hs; [exact Hs|].
-  unfold do_actions in *. cbn [fold_left]. apply IH; [exact (proj1 (Below_action false s a Hb))|apply KS_action; assumption].
+  unfold do_regs in *. cbn [fold_left]. apply IH; [exact (proj1 (Below_reg false s a Hb))|apply KS_reg; assumption].
+Qed.
+
+Lemma KS_notify : forall s w, Below s -> ksorted (timers s) -> ksorted (timers (notify_unbind false uenv s w)).
+Proof.
+  intros s w Hb Hs. unfold notify_unbind. destruct (w_unbind w); [|exact Hs].
+  apply KS_regs; [exact Hb|exact Hs].
+Qed.
+
+Lemma KS_cancel : forall s id, WF s -> ksorted (timers s) -> ksorted (timers (watch_cancel false uenv s id)).
+Proof.
+  intros s id H Hs. unfold watch_cancel.
+  destruct (find_remove id (ios s)) as [[w0 l0]|] eqn:E1;
+    [apply KS_notify; [exact (wf_below _ (WF_rm_ios s id w0 l0 H E1))|exact Hs]|].
+  destruct (find_remove id (timers s)) as [[w0 l0]|] eqn:E2;
+    [apply KS_notify; [exact (wf_below _ (WF_rm_timers s id w0 l0 H E2))|
+                       cbn [timers set_timers]; eapply ksorted_subseq; [eapply find_remove_subseq; exact E2|exact Hs]]|].
+  destruct (find_remove id (run_timers s)) as [[w0 l0]|] eqn:E3;
+    [apply KS_notify; [exact (wf_below _ (WF_rm_run_timers s id w0 l0 H E3))|exact Hs]|].
+  destruct (find_remove id (laters s)) as [[w0 l0]|] eqn:E4;
+    [apply KS_notify; [exact (wf_below _ (WF_rm_laters s id w0 l0 H E4))|exact Hs]|].
+  destruct (find_remove id (run_laters s)) as [[w0 l0]|] eqn:E5;
+    [apply KS_notify; [exact (wf_below _ (WF_rm_run_laters s id w0 l0 H E5))|exact Hs]|].
+  destruct (find_remove id (sigs s)) as [[w0 l0]|] eqn:E6;
+    [apply KS_notify; [exact (wf_below _ (WF_rm_sigs s id w0 l0 H E6))|exact Hs]|].
+  destruct (find_remove id (procs s)) as [[w0 l0]|] eqn:E7;
+    [apply KS_notify; [exact (wf_below _ (WF_rm_procs s id w0 l0 H E7))|exact Hs]|].
+  exact Hs.
+Qed.
+
+Lemma KS_action : forall s a, WF s -> ksorted (timers s) -> ksorted (timers (do_action false uenv s a)).
+Proof.
+  intros s a H Hs. destruct a as [d fl cb|fl cb|k x fl cb|id|]; cbn [do_action];
+    try (apply KS_reg; [exact (wf_below _ H)|exact Hs]).
+  apply KS_cancel; assumption.
+Qed.
+
+Lemma KS_actions : forall l s, WF s -> ksorted (timers s) -> ksorted (timers (do_actions false uenv s l)).
+Proof.
+  induction l as [|a l IH]; intros s H Hs; [exact Hs|].
+  unfold do_actions in *. cbn [fold_left]. apply IH; [apply WF_action; exact H|apply KS_action; assumption].
 Qed.
 
 Lemma nofire_not_tfire : forall nw, (forall e, In (OEv e) nw -> nofire e) -> filter is_tfire nw = [].
@@ -378,7 +435,7 @@ Qed.
 (* the timer callbacks an iteration invokes are, oldest first, a subsequence of the detached
    due queue *)
 Lemma finish_fired : forall k s, Inv s -> (length (run_timers s) + length (run_laters s) <= k)%nat ->
-  exists fired nw, subseq fired (run_timers s) /\ log (finish env s) = nw ++ log s /\
+  exists fired nw, subseq fired (run_timers s) /\ log (finish env uenv s) = nw ++ log s /\
                    map okey (filter is_tfire nw) = rev (map wkey fired).
 Proof.
   induction k as [|k IH]; intros s H Hk.
@@ -388,34 +445,34 @@ Proof.
   - destruct (run_timers s) as [|w r] eqn:Et.
     + destruct (run_laters s) as [|w r] eqn:Er.
       * rewrite finish_done by assumption. exists [], []. repeat split; constructor.
-      * rewrite (finish_step_later env s w r Et Er).
+      * rewrite (finish_step_later env uenv s w r Et Er).
         destruct (Inv_pop_later_pre s w r H Er) as [H1 Hk1].
-        pose proof (Inv_actions false (env (w_cb w)) _ H1) as H2. fold (pop_later env s w r) in H2.
-        destruct (actions_run_len false (env (w_cb w)) (emit (set_run_laters s r) w (EV_FIRE + EV_UNBIND))) as [L1 L2].
-        cbn [run_timers run_laters emit set_log set_run_laters] in L1, L2. fold (pop_later env s w r) in L1, L2.
+        pose proof (Inv_actions false uenv (env (w_cb w)) _ H1) as H2. fold (pop_later env uenv s w r) in H2.
+        destruct (actions_run_len false uenv (env (w_cb w)) (emit (set_run_laters s r) w (EV_FIRE + EV_UNBIND))) as [L1 L2].
+        cbn [run_timers run_laters emit set_log set_run_laters] in L1, L2. fold (pop_later env uenv s w r) in L1, L2.
         rewrite Et in L1. cbn [length] in Hk, L1.
-        destruct (IH (pop_later env s w r) H2) as [fired [nw [S1 [Lg Ky]]]]; [lia|].
-        assert (Et2 : run_timers (pop_later env s w r) = []) by (destruct (run_timers (pop_later env s w r)); [reflexivity|cbn in L1; lia]).
+        destruct (IH (pop_later env uenv s w r) H2) as [fired [nw [S1 [Lg Ky]]]]; [lia|].
+        assert (Et2 : run_timers (pop_later env uenv s w r) = []) by (destruct (run_timers (pop_later env uenv s w r)); [reflexivity|cbn in L1; lia]).
         rewrite Et2 in S1. apply subseq_nil_inv in S1. subst fired.
-        destruct (ext_actions false (env (w_cb w)) (emit (set_run_laters s r) w (EV_FIRE + EV_UNBIND))) as [na [La Fa]].
-        fold (pop_later env s w r) in La.
+        destruct (ext_actions false uenv (env (w_cb w)) (emit (set_run_laters s r) w (EV_FIRE + EV_UNBIND))) as [na [La Fa]].
+        fold (pop_later env uenv s w r) in La.
         exists [], (nw ++ na ++ [OEv (mkE (w_id w) (w_kind w) (EV_FIRE + EV_UNBIND) (iter s) (now s) (w_x w))]).
         split; [constructor|]. split.
         -- rewrite Lg, La. cbn [log emit set_log set_run_laters]. rewrite <- !app_assoc. reflexivity.
         -- rewrite !filter_app, (nofire_not_tfire na Fa). cbn [filter is_tfire e_kind e_flags app].
            assert (Ek : (kind_code (w_kind w) =? 0) = false) by (destruct (w_kind w); try reflexivity; contradiction).
            rewrite Ek. cbn [andb]. rewrite app_nil_r. exact Ky.
-    + rewrite (finish_step_timer env s w r Et).
+    + rewrite (finish_step_timer env uenv s w r Et).
       destruct (Inv_pop_timer_pre s w r H Et) as [H1 Hk1].
-      pose proof (Inv_actions false (env (w_cb w)) _ H1) as H2. fold (pop_timer env s w r) in H2.
-      destruct (actions_run_len false (env (w_cb w)) (emit (set_run_timers s r) w (EV_FIRE + EV_UNBIND))) as [L1 L2].
-      cbn [run_timers run_laters emit set_log set_run_timers] in L1, L2. fold (pop_timer env s w r) in L1, L2.
+      pose proof (Inv_actions false uenv (env (w_cb w)) _ H1) as H2. fold (pop_timer env uenv s w r) in H2.
+      destruct (actions_run_len false uenv (env (w_cb w)) (emit (set_run_timers s r) w (EV_FIRE + EV_UNBIND))) as [L1 L2].
+      cbn [run_timers run_laters emit set_log set_run_timers] in L1, L2. fold (pop_timer env uenv s w r) in L1, L2.
       cbn [length] in Hk.
-      destruct (IH (pop_timer env s w r) H2) as [fired [nw [S1 [Lg Ky]]]]; [lia|].
+      destruct (IH (pop_timer env uenv s w r) H2) as [fired [nw [S1 [Lg Ky]]]]; [lia|].
       pose proof (actions_run_subseq (env (w_cb w)) (emit (set_run_timers s r) w (EV_FIRE + EV_UNBIND))) as S2.
-      cbn [run_timers emit set_log set_run_timers] in S2. fold (pop_timer env s w r) in S2.
-      destruct (ext_actions false (env (w_cb w)) (emit (set_run_timers s r) w (EV_FIRE + EV_UNBIND))) as [na [La Fa]].
-      fold (pop_timer env s w r) in La.
+      cbn [run_timers emit set_log set_run_timers] in S2. fold (pop_timer env uenv s w r) in S2.
+      destruct (ext_actions false uenv (env (w_cb w)) (emit (set_run_timers s r) w (EV_FIRE + EV_UNBIND))) as [na [La Fa]].
+      fold (pop_timer env uenv s w r) in La.
       exists (w :: fired), (nw ++ na ++ [OEv (mkE (w_id w) (w_kind w) (EV_FIRE + EV_UNBIND) (iter s) (now s) (w_x w))]).
       split; [apply sq_take; eapply subseq_trans; eassumption|]. split.
       * rewrite Lg, La. cbn [log emit set_log set_run_timers]. rewrite <- !app_assoc. reflexivity.
@@ -426,7 +483,7 @@ Qed.
 
 (* ksorted timers is an invariant of whole scripts *)
 Lemma KS_finish : forall k s, WF s -> ksorted (timers s) -> (length (run_timers s) + length (run_laters s) <= k)%nat ->
-  ksorted (timers (finish env s)).
+  ksorted (timers (finish env uenv s)).
 Proof.
   induction k as [|k IH]; intros s H Hs Hk.
   - assert (Et : run_timers s = []) by (destruct (run_timers s); [reflexivity|cbn in Hk; lia]).
@@ -435,26 +492,26 @@ Proof.
   - destruct (run_timers s) as [|w r] eqn:Et.
     + destruct (run_laters s) as [|w r] eqn:Er.
       * rewrite finish_done by assumption. exact Hs.
-      * rewrite (finish_step_later env s w r Et Er).
+      * rewrite (finish_step_later env uenv s w r Et Er).
         pose proof (WF_pop_later_pre s w r H Er) as H1.
-        destruct (sim_actions (env (w_cb w)) _ H1) as [_ A2]. fold (pop_later env s w r) in A2.
-        destruct (actions_run_len false (env (w_cb w)) (emit (set_run_laters s r) w (EV_FIRE + EV_UNBIND))) as [L1 L2].
-        cbn [run_timers run_laters emit set_log set_run_laters] in L1, L2. fold (pop_later env s w r) in L1, L2.
+        destruct (sim_actions uenv (env (w_cb w)) _ H1) as [_ A2]. fold (pop_later env uenv s w r) in A2.
+        destruct (actions_run_len false uenv (env (w_cb w)) (emit (set_run_laters s r) w (EV_FIRE + EV_UNBIND))) as [L1 L2].
+        cbn [run_timers run_laters emit set_log set_run_laters] in L1, L2. fold (pop_later env uenv s w r) in L1, L2.
         rewrite Et in L1. cbn [length] in Hk, L1.
         apply IH; [exact A2| |lia].
-        unfold pop_later. apply KS_actions; [exact (wf_below _ H1)|exact Hs].
-    + rewrite (finish_step_timer env s w r Et).
+        unfold pop_later. apply KS_actions; [exact H1|exact Hs].
+    + rewrite (finish_step_timer env uenv s w r Et).
       pose proof (WF_pop_timer_pre s w r H Et) as H1.
-      destruct (sim_actions (env (w_cb w)) _ H1) as [_ A2]. fold (pop_timer env s w r) in A2.
-      destruct (actions_run_len false (env (w_cb w)) (emit (set_run_timers s r) w (EV_FIRE + EV_UNBIND))) as [L1 L2].
-      cbn [run_timers run_laters emit set_log set_run_timers] in L1, L2. fold (pop_timer env s w r) in L1, L2.
+      destruct (sim_actions uenv (env (w_cb w)) _ H1) as [_ A2]. fold (pop_timer env uenv s w r) in A2.
+      destruct (actions_run_len false uenv (env (w_cb w)) (emit (set_run_timers s r) w (EV_FIRE + EV_UNBIND))) as [L1 L2].
+      cbn [run_timers run_laters emit set_log set_run_timers] in L1, L2. fold (pop_timer env uenv s w r) in L1, L2.
       cbn [length] in Hk.
       apply IH; [exact A2| |lia].
-      unfold pop_timer. apply KS_actions; [exact (wf_below _ H1)|exact Hs].
+      unfold pop_timer. apply KS_actions; [exact H1|exact Hs].
 Qed.
 
 Lemma tick_unfold : forall sleep dt s, WF s -> run_timers s = [] -> run_laters s = [] ->
-  exists s3 msec, tick false env sleep dt s = finish env (detached s3) /\
+  exists s3 msec, tick false env uenv sleep dt s = finish env uenv (detached s3) /\
     WF s3 /\ run_timers s3 = [] /\ run_laters s3 = [] /\ timers s3 = timers s /\ log s3 = OPoll msec :: log s /\
     (Inv s -> Inv s3).
 Proof.
@@ -473,25 +530,25 @@ Proof.
       intros e [He|He]; try discriminate; exact (Hlog e He). }
   destruct H3 as [H3 [Et3 [Er3 [T3 [L3 I3]]]]].
   split; [|split; [exact H3|split; [exact Et3|split; [exact Er3|split; [exact T3|split; [exact L3|exact I3]]]]]].
-  apply (invoke_timers_finish env s3 Et3 Er3 (wf_sorted _ H3)).
+  apply (invoke_timers_finish env uenv s3 Et3 Er3 (wf_sorted _ H3)).
 Qed.
 
-Lemma KS_run_ops : forall ops, ksorted (timers (run_ops false env ops)).
+Lemma KS_run_ops : forall ops, ksorted (timers (run_ops false env uenv ops)).
 Proof.
   intros ops. unfold run_ops.
-  assert (G : forall ops s, WF s -> Quiet s -> ksorted (timers s) -> ksorted (timers (fold_left (do_op false env) ops s))).
+  assert (G : forall ops s, WF s -> Quiet s -> ksorted (timers s) -> ksorted (timers (fold_left (do_op false env uenv) ops s))).
   { induction ops0 as [|o r IH]; intros s H Q Hs; [exact Hs|].
     cbn [fold_left]. destruct Q as [QI [Et Er]].
-    destruct (sim_op env s o H Et Er) as [_ A2].
+    destruct (sim_op env uenv s o H Et Er) as [_ A2].
     apply IH; [exact A2| |].
     - destruct o as [a|dt|]; cbn [do_op];
         [apply Quiet_action|apply Quiet_tick|apply Quiet_tick]; (split; [exact QI|split; assumption]).
-    - assert (T : forall sleep dt, ksorted (timers (tick false env sleep dt s))).
+    - assert (T : forall sleep dt, ksorted (timers (tick false env uenv sleep dt s))).
       { intros sleep dt. destruct (tick_unfold sleep dt s H Et Er) as [s3 [msec [E [H3 [Et3 [Er3 [T3 _]]]]]]].
         rewrite E. apply (KS_finish (length (run_timers (detached s3)) + length (run_laters (detached s3)))); [|  |apply le_n].
         - apply WF_detached; assumption.
         - unfold detached. cbn [timers]. eapply ksorted_subseq; [apply filter_subseq|]. rewrite T3. exact Hs. }
-      destruct o as [a|dt|]; cbn [do_op]; [apply KS_action; [exact (wf_below _ H)|exact Hs]|apply T|apply T]. }
+      destruct o as [a|dt|]; cbn [do_op]; [apply KS_action; [exact H|exact Hs]|apply T|apply T]. }
   apply G; [apply WF_st0|apply Quiet_st0|constructor].
 Qed.
 
@@ -499,13 +556,13 @@ Qed.
    order -- deadline order, equal deadlines in registration order *)
 Theorem iteration_order : forall ops sleep dt,
   exists fired nw,
-    log (tick false env sleep dt (run_ops false env ops)) = nw ++ log (run_ops false env ops) /\
+    log (tick false env uenv sleep dt (run_ops false env uenv ops)) = nw ++ log (run_ops false env uenv ops) /\
     map okey (filter is_tfire nw) = rev (map wkey fired) /\ ksorted fired.
 Proof.
   intros ops sleep dt.
-  destruct (sim_run_ops env ops) as [_ Hwf]. destruct (reach false env ops) as [[HI [Et Er]] _].
+  destruct (sim_run_ops env uenv ops) as [_ Hwf]. destruct (reach false env uenv ops) as [[HI [Et Er]] _].
   pose proof (KS_run_ops ops) as Hks.
-  set (s := run_ops false env ops) in *.
+  set (s := run_ops false env uenv ops) in *.
   destruct (tick_unfold sleep dt s Hwf Et Er) as [s3 [msec [E [H3 [Et3 [Er3 [T3 [L3 I3]]]]]]]].
   assert (Id : Inv (detached s3)).
   { destruct (I3 HI) as [Htk Hrt Hot Hlog]. constructor.
